@@ -347,10 +347,16 @@ impl Prop for C11P {
                 v.push(format!("{}x{} {} {}", c, r, i, (i + chunk).min(nops)));
                 i += chunk;
             }
+            v.push(format!("nodrop {}x{}", c, r));
         }
         v
     }
     fn run_unit(&self, unit: &str, ctx: &mut Ctx) {
+        if let Some(dims) = unit.strip_prefix("nodrop ") {
+            let (c, r) = dims.split_once('x').unwrap();
+            run_nodrop(c.parse().unwrap(), r.parse().unwrap(), ctx);
+            return;
+        }
         let p: Vec<&str> = unit.split(' ').collect();
         let (c, r) = p[0].split_once('x').unwrap();
         let (c, r): (usize, usize) = (c.parse().unwrap(), r.parse().unwrap());
@@ -371,6 +377,7 @@ impl Prop for C11P {
         "operations that run caller code, on TooDee<Tracked> of every shape in the bound, exact and spare capacity: new (Default), init/fill/clone/TooDee::from(view) of every window/clone_from_slice/clone_from_toodee on the array and on windows (Clone, and Drop of overwritten cells), \
          insert_row/push_row/insert_col/push_col at every index from a custom iterator whose len/next/next_back are caller code (honest, and lying: len-1, len+1, 0, usize::MAX/2+1, usize::MAX), remove_row/remove_col/pop_row/pop_col at every index with every front/back consumption split and through nth / nth_back / skip+step_by / rev+skip (Drop of skipped and undrained elements), clear, indexed replacement and drop (Drop), \
          all eleven sorts at every valid index on the array and on windows (comparator / key function / Ord::cmp). \
+         The insertions are repeated over a move-only element type WITHOUT drop glue (a token with an identity): after a fault no token may be reachable through two cells. \
          For each instance: a fault-free run counts the M calls into caller code; then for every k < M the k-th call panics and the panic is caught. After every run (faulted or not): shape invariant; every reachable cell is live, canary-valid and pairwise distinct; then all cells are read through Index/rows/cells/col, two cells replaced, a row and a column pushed, inserted, removed and popped, the array dropped, everything held by the harness dropped; no double drop, no drop of a never-constructed value (leaks allowed), guard allocator clean. \
          A case is (shape, capacity, operation instance, k); non-trivial = the fault fired (k-th call reached); distinct by the tuple. Thorough tier: the whole history is re-executed for every (first fault k1, second operation from a menu of 7, second fault k2 or none), i.e. two-fault histories are enumerated exhaustively over that menu."
             .into()
@@ -477,9 +484,54 @@ const MENU_LEN: usize = 7;
 
 /// For the checks of other properties: every owned array that survives (operation instance, k-th call into
 /// caller code panicking and caught) for every operation of `ops_for(c, r)`, handed to `f` together with a
-/// description. `f` owns the survivor: it must drop it, or forget it if it is not trustworthy. The fault-free
+/// description (and every array left behind by a leaked row / column drain). `f` owns the survivor: it must drop it, or forget it if it is not trustworthy. The fault-free
 /// run is included (k = None). Arrays created by the operation (clones, conversions) are leaked.
 pub fn for_each_survivor(c: usize, r: usize, ctx: &mut Ctx, f: &mut dyn FnMut(TooDee<Tracked>, &str, &mut crate::engine::Case)) {
+    // arrays left behind by a LEAKED drain (mem::forget after f items from the front and b from the back)
+    for row in [true, false] {
+        let (dim, line) = if row { (r, c) } else { (c, r) };
+        for i in 0..dim {
+            for (fr, bk) in [(0usize, 0usize), (1, 0), (0, 1), (line, 0)] {
+                if fr + bk > line {
+                    continue;
+                }
+                ctx.case(
+                    || format!("TooDee<Tracked> {}x{} after {}({}) whose drain was leaked with {} taken from the front and {} from the back", c, r, if row { "remove_row" } else { "remove_col" }, i, fr, bk),
+                    |cs| {
+                        cs.outcome("leaked-drain");
+                        cs.nontrivial((c, r, row, i, fr, bk));
+                        let mut t = build(c, r, false);
+                        let mut held: Vec<Tracked> = Vec::new();
+                        let res = guarded(|| {
+                            macro_rules! leak {
+                                ($d:expr) => {{
+                                    let mut d = $d;
+                                    for _ in 0..fr {
+                                        held.extend(d.next());
+                                    }
+                                    for _ in 0..bk {
+                                        held.extend(d.next_back());
+                                    }
+                                    std::mem::forget(d);
+                                }};
+                            }
+                            if row {
+                                leak!(t.remove_row(i))
+                            } else {
+                                leak!(t.remove_col(i))
+                            }
+                        });
+                        if res.is_err() {
+                            std::mem::forget(t);
+                            return;
+                        }
+                        f(t, &format!("after {}({}) with the drain leaked ({} front, {} back taken)", if row { "remove_row" } else { "remove_col" }, i, fr, bk), cs);
+                        drop(held);
+                    },
+                );
+            }
+        }
+    }
     for op in ops_for(c, r) {
         if !needs_array(&op) || matches!(op, FOp::DropArray) {
             continue;
@@ -533,6 +585,81 @@ fn run_op(op: &FOp, c: usize, r: usize, spare: bool, second: bool, ctx: &mut Ctx
                 }
                 for k2 in 0..s0.ticks2 {
                     run_plan(op, c, r, spare, Plan { k1: Some(k), second: Some((j, Some(k2))) }, ctx);
+                }
+            }
+        }
+    }
+}
+
+/// A move-only element without drop glue: duplicating it is as wrong as duplicating an owning element (think of
+/// `&mut U` cells), but no destructor will ever tell. Only its identity can.
+pub struct Token(pub u64);
+
+/// insert_row / push_row / insert_col / push_col of tokens from an iterator whose k-th call panics or whose
+/// length lies: afterwards the shape invariant must hold and no token may sit in two cells.
+fn run_nodrop(c: usize, r: usize, ctx: &mut Ctx) {
+    let build_tokens = || -> TooDee<Token> { TooDee::from_vec(c, r, (0..(c * r) as u64).map(Token).collect()) };
+    for which in 0..4u8 {
+        let row = which <= 1;
+        let indices: Vec<usize> = if which % 2 == 1 { vec![0] } else { (0..=if row { r } else { c }).collect() };
+        for i in indices {
+            for lie in 0..3u8 {
+                let run = |k: Option<u64>, cs: &mut crate::engine::Case| -> u64 {
+                    let mut t = build_tokens();
+                    let other = if row { c } else { r };
+                    let true_len = if other == 0 { 2 } else { other };
+                    let items: Vec<Token> = (0..true_len as u64).map(|j| Token(1000 + j)).collect();
+                    let it = match lie {
+                        0 => FaultIter::new(items),
+                        1 => FaultIter::lying(items, true_len - 1),
+                        _ => FaultIter::lying(items, true_len + 1),
+                    };
+                    ledger::arm(k.unwrap_or(u64::MAX));
+                    let _ = guarded(|| match which {
+                        0 => t.insert_row(i, it),
+                        1 => t.push_row(it),
+                        2 => t.insert_col(i, it),
+                        _ => t.push_col(it),
+                    });
+                    let ticks = ledger::disarm();
+                    let what = format!("after {} of tokens at {} (lie {}, fault at call #{:?})", ["insert_row", "push_row", "insert_col", "push_col"][which as usize], i, lie, k);
+                    let (nc, nr) = (t.num_cols(), t.num_rows());
+                    if nc.checked_mul(nr) != Some(t.data().len()) || (nc == 0) != (nr == 0) {
+                        cs.fail("after-fault:shape-len", format!("{}: size ({},{}) over {} cells", what, nc, nr, t.data().len()));
+                    } else {
+                        let mut seen = std::collections::HashSet::new();
+                        for tok in t.data() {
+                            let known = tok.0 < (c * r) as u64 || (1000..1000 + true_len as u64).contains(&tok.0);
+                            if !known {
+                                cs.fail("after-fault:dead-cell", format!("{}: a cell holds {:#x}, which was neither in the array nor supplied", what, tok.0));
+                                break;
+                            }
+                            if !seen.insert(tok.0) {
+                                cs.fail("after-fault:duplicate-cell", format!("{}: token {} is reachable through two cells", what, tok.0));
+                                break;
+                            }
+                        }
+                    }
+                    ticks
+                };
+                let mut ticks = 0u64;
+                ctx.pilot_case(
+                    || format!("TooDee<Token> {}x{} op {} index {} lie {} (no fault)", c, r, which, i, lie),
+                    |cs| {
+                        cs.outcome("fault-free:ok");
+                        cs.nontrivial((c, r, which, i, lie, "count"));
+                        ticks = run(None, cs);
+                    },
+                );
+                for k in 0..ticks {
+                    ctx.case(
+                        || format!("TooDee<Token> {}x{} op {} index {} lie {} with call #{} panicking", c, r, which, i, lie, k),
+                        |cs| {
+                            cs.outcome("faulted");
+                            cs.nontrivial((c, r, which, i, lie, k));
+                            run(Some(k), cs);
+                        },
+                    );
                 }
             }
         }
